@@ -76,6 +76,29 @@ pub fn sd_jwt(cex: &Value) -> Result<String, String> {
       v(&sd(None, disclosures.clone()), &copts().verification_options(JwsVerificationOptions::default().method_scope(MethodScope::authentication()))).is_ok(),
       false,
     );
+    // malformed disclosures of any length and alphabet (the decoder's error echoes them): an error, never a panic
+    for ch in ["a", "\u{e9}", "\u{20ac}", "\u{1f600}", "!"] {
+      for n in [0usize, 1, 2, 3, 39, 40, 41, 63, 64, 65, 80, 127, 128, 129, 160, 161, 200, 255, 256, 257, 1000] {
+        for lead in ["", "x", "xy", "xyz"] {
+          let bad = format!("{lead}{}", ch.repeat(n));
+          let sdx = sd(None, vec![bad.clone()]);
+          let sdy = sd(None, vec![d1.clone(), bad]);
+          match no_panic(std::panic::AssertUnwindSafe(|| (v(&sdx, &copts()).is_ok(), v(&sdy, &copts()).is_ok()))) {
+            Err(msg) => {
+              log.borrow_mut().push(format!("[cred-panic] malformed disclosure ({lead:?} + {n} x {ch:?}): validation panicked: {msg}"));
+            }
+            Ok((a, b)) => {
+              if a || (b && n + lead.len() > 0) {
+                log.borrow_mut().push(format!("[cred] malformed disclosure ({lead:?} + {n} x {ch:?}) accepted"));
+              }
+            }
+          }
+        }
+      }
+      if log.borrow().len() > 6 {
+        break;
+      }
+    }
     let wrong = sign_jwt(&encoded, Some(&kid), None, &method_key(ISSUER, "#auth"));
     expect("cred", "signed with another key", validator.validate_credential::<_, Object>(&SdJwt::new(wrong.as_str().to_string(), disclosures.clone(), None), &issuer, &copts(), FailFast::FirstError).is_ok(), false);
     expect("cred", "validated against another document", validator.validate_credential::<_, Object>(&sd(None, disclosures.clone()), &holder, &copts(), FailFast::FirstError).is_ok(), false);
@@ -109,6 +132,15 @@ pub fn sd_jwt(cex: &Value) -> Result<String, String> {
     kexpect("iat 1s before the earliest bound", k(&sd(Some(kb.clone()), disclosures.clone()), &kopts().earliest_issuance_date(ts(t0 + 1))), false);
     kexpect("iat 1s after the latest bound", k(&sd(Some(kb.clone()), disclosures.clone()), &kopts().latest_issuance_date(ts(t0 - 1))), false);
     kexpect("other nonce", k(&sd(Some(kb.clone()), disclosures.clone()), &kopts().nonce("n2")), false);
+    // nonces are compared as whole strings: prefixes, extensions, the empty string and case variants are other nonces
+    for required in ["", "n", "n12", "N1", "n1 ", " n1", "1n"] {
+      kexpect(&format!("token nonce \"n1\", required nonce {required:?}"), k(&sd(Some(kb.clone()), disclosures.clone()), &kopts().nonce(required)), false);
+      let kbn = sign_typed(&kb_claims(required, "aud1", t0, jwt.as_str(), &disclosures), &hkid, KeyBindingJwtClaims::KB_JWT_HEADER_TYP, &method_key(HOLDER, "#auth"));
+      kexpect(&format!("token nonce {required:?}, required nonce \"n1\""), k(&sd(Some(kbn), disclosures.clone()), &kopts()), false);
+    }
+    for aud in ["", "aud", "aud12", "AUD1"] {
+      kexpect(&format!("token audience \"aud1\", required audience {aud:?}"), k(&sd(Some(kb.clone()), disclosures.clone()), &kopts().aud(aud)), false);
+    }
     kexpect("other audience", k(&sd(Some(kb.clone()), disclosures.clone()), &kopts().aud("aud2")), false);
     kexpect("disclosure withheld: sd_hash over other data", k(&sd(Some(kb.clone()), vec![]), &kopts()), false);
     let kb_wrong_typ = sign_typed(&kb_claims("n1", "aud1", t0, jwt.as_str(), &disclosures), &hkid, "JWT", &method_key(HOLDER, "#auth"));
